@@ -170,7 +170,7 @@ func (g *gen) knobs(cmp string) Knobs {
 	k.DisableBlockCache = r.p(0.15)
 	k.EvictRemoved = r.p(0.3)
 	if r.p(0.4) {
-		k.SamplingRate = r.pick(16, 64, 256, 4096)
+		k.SamplingRate = r.pick(64, 256, 4096)
 	}
 	k.DisableSeeks = r.p(0.2)
 	k.NoWriteMerge = r.p(0.2)
